@@ -19,7 +19,9 @@ META = dict(
                "first-block predicate counts as no match. Tie: C01 cases with raises injected at every (predicate, "
                "event position), model vs implementation after every event; oracle: documented semantics with "
                "'raise = run untouched', and comparison with the same stream where the predicate returns False.",
-    level_note="Trusted: Coq kernel; harness mirrors. Exceptions are modelled as the value PRaise.",
+    level_note="Trusted: Coq kernel; harness mirrors. Exceptions are modelled as the value PRaise; the implementation is "
+               "driven with PredRaise and with built-in exception types (TypeError, ValueError, KeyError, ...), raised "
+               "from plain predicates and from inside typed predicates whose cast path is taken.",
     rule="C01 patterns/streams; one or more (predicate, timestamp) raise points chosen exhaustively for small cases and "
          "randomly for larger ones; non-trivial = a raise actually happened while a run or a first block evaluated",
     trusted_base=["harness/predlang.py, ref_oracle.py"],
@@ -51,7 +53,26 @@ def deraise_cfg(cfg):
     return c
 
 
+# how a predicate fails: the scripted raise throws PredRaise (None) or a built-in exception, from a plain
+# BoboPredicateCall or from inside a BoboPredicateCallType(int, cast=True) whose cast path is taken (data travel as text)
+MODES = [None, dict(typed=True, exc="TypeError"), dict(exc="KeyError"), dict(typed=True, exc="ValueError"),
+         dict(exc="TypeError"), dict(typed=True, subtype=False, exc="ZeroDivisionError"), dict(exc="ValueError"),
+         dict(typed=True), dict(exc="StopIteration"), dict(typed=True, subtype=False, exc="TypeError"),
+         dict(exc="AttributeError")]
+
+
 def gen_cases(ctx):
+    cases = gen_cases0(ctx)
+    out = []
+    for i, (cfg, ops, t) in enumerate(cases):
+        m = MODES[i % len(MODES)]
+        if m is not None:
+            cfg = dict(cfg, mode=m)
+        out.append((cfg, ops, t))
+    return out
+
+
+def gen_cases0(ctx):
     rng = ctx.rng
     cases = []
     shapes = G.shapes(3)
@@ -139,8 +160,10 @@ def run(ctx, res):
     results = pmap(work, cases)
     coq_cases = []
     for (cfg, ops, t), (out, nontrivial, fail) in zip(cases, results):
-        res.note_case((PL.config_coq(cfg), repr(ops)), nontrivial)
+        res.note_case((PL.config_coq(cfg), repr(ops), repr(cfg.get("mode"))), nontrivial)
         res.count("stream_len_%d" % min(len(ops), 12))
+        m = cfg.get("mode") or {}
+        res.count("raises_%s_from_%s" % (m.get("exc") or "PredRaise", "typed-predicate-cast-path" if m.get("typed") else "plain-predicate"))
         res.count("raised" if nontrivial else "raise_point_not_reached")
         coq_cases.append((SD.case_coq(cfg, ops), out))
         if fail:
